@@ -58,6 +58,10 @@ def hlt (a b : Bytes) : Prop := compare a b = .lt
 def Inside (o n h : Bytes) : Prop :=
   if compare o n = .lt then hlt o h ∧ hlt h n else hlt o h ∨ hlt h n
 
+instance (o n h : Bytes) : Decidable (Inside o n h) := by
+  unfold Inside hlt
+  exact inferInstance
+
 section
 variable (H : Name → Bytes) (enc : Bytes → Bytes)
 
